@@ -194,7 +194,12 @@ AbsP(ts, i) == LET one == AbsStepP(ts, i) IN one \cup UNION {AbsP(ts, k) : k \in
 DescP(ts, i) == LET n == NodeIdP(ts, i) IN n \cup UNION {AbsP(ts, m) : m \in UNION {PPredsP(ts, k) : k \in n}}
 PathArgP(ts) == AbsP(ts, 0) \cup UNION {DescP(ts, k) : k \in UpsP(ts, 0)}
 PathArg(ts) == Len(ts) > 0 /\ Len(ts) \in PathArgP(ts)
+\* RFC 6020 section 12: "An identifier MUST NOT start with (('X'|'x') ('M'|'m') ('L'|'l'))" - both halves of a node-identifier
+XmlHeads == {x \o m \o l : x \in {"x", "X"}, m \in {"m", "M"}, l \in {"l", "L"}}
+StartsXml(s) == Len(s) >= 3 /\ SubSeq(s, 1, 3) \in XmlHeads
+LocalOf(t) == IF ColonPos(t) = 0 THEN t ELSE SubSeq(t, ColonPos(t) + 1, Len(t))
 LeafrefLexOk(ts) == \A i \in 1..Len(ts) : \/ ts[i] \in {"/", "..", "[", "]", "=", "(", ")"}
-                                          \/ (IsNameTok(ts[i]) /\ PrefixOf(ts[i]) \in KnownPrefixes)
+                                          \/ (IsNameTok(ts[i]) /\ PrefixOf(ts[i]) \in KnownPrefixes
+                                              /\ ~StartsXml(PrefixOf(ts[i])) /\ ~StartsXml(LocalOf(ts[i])))
 LeafrefVerdict(ts) == IF PathArg(ts) /\ LeafrefLexOk(ts) THEN "accept" ELSE "reject"
 =============================================================================
